@@ -20,7 +20,23 @@ SERVER_FAULTS = ["none", "none", "none", "raise-all", "raise-nth", "disconnect-n
 def build_directed(rng):
     """Directed families (placements are given as RANKS in the permuted server order of the
     file's storage index; materialize() maps ranks to servers)."""
-    fam = rng.choice(["late-majority", "dup-failover", "field-edits"])
+    fam = rng.choice(["late-majority", "dup-failover", "field-edits", "fault-mid-download", "fault-mid-download"])
+    if fam == "fault-mid-download":
+        # several segments; the servers holding the shares fail (error or lost connection) on their n-th block-level
+        # read, i.e. somewhere between two segments or in the middle of one; the remaining servers hold nothing
+        k = rng.randint(1, 2)
+        n = rng.randint(k, k + 4)
+        nservers = rng.randint(2, 4)
+        holders = rng.sample(range(nservers), rng.randint(1, min(2, nservers)))
+        placements = [(holders[sh % len(holders)], sh, rng.choice(["good", "good", "good", "missing", "truncated-header"]))
+                      for sh in range(n)]
+        faults = {r: {"kind": "none"} for r in range(nservers)}
+        for r in holders:
+            faults[r] = {"kind": rng.choice(["disconnect-nth", "raise-nth"]), "method": "read", "nth": rng.randint(2, 12)}
+        segsize = rng.choice([64, 128, 1024])
+        size = segsize * rng.randint(2, 5) + rng.randint(0, 3)
+        return dict(k=k, n=n, segsize=segsize, size=size, nservers=nservers, layout=fam, by_rank=True,
+                    placements=placements, faults=faults)
     if fam == "field-edits":
         # the first servers in permuted order (the ones a reader asks first) hold shares with one header field set to
         # a boundary value; 0..k intact shares sit behind them
